@@ -2,7 +2,9 @@ use crate::{
     emulator::Emulator,
     error::{SnapshotLoadError, SnapshotSaveError},
     host::{DataRecorder, Host, LoadableAsset, SeekFrom, SeekableAsset},
-    zx::{joy::kempston, mouse::kempston::KempstonMouse, video::colors::ZXColor},
+    zx::{
+        joy::kempston, machine::ZXMachine, mouse::kempston::KempstonMouse, video::colors::ZXColor,
+    },
     Result,
 };
 
@@ -339,6 +341,12 @@ where
 
     let machine_id = header[6] as u32;
     if machine_id > ZXST_MID_128K {
+        return Err(SnapshotLoadError::MachineNotSupported.into());
+    }
+    // Snapshot of a different machine model can't be represented by current one
+    let snapshot_is_128k = machine_id == ZXST_MID_128K;
+    let machine_is_128k = emulator.settings.machine == ZXMachine::Sinclair128K;
+    if snapshot_is_128k != machine_is_128k {
         return Err(SnapshotLoadError::MachineNotSupported.into());
     }
 
